@@ -347,8 +347,24 @@ func c17Runner(c *Ctx, OUT *ssa.Function) {
 	ofi := w.Info(OUT)
 	os_ := w.Summarize(OUT, m)
 	okOut := len(os_.Exits) > 0
+	// the buffer behind cmd.Stdout
+	stdoutBuf := "alloc:bytes.Buffer<?>"
+	for _, b := range OUT.Blocks {
+		for _, in := range b.Instrs {
+			if st, ok := in.(*ssa.Store); ok {
+				if fa, ok := st.Addr.(*ssa.FieldAddr); ok && fieldName(fa.X.Type(), fa.Field) == "Stdout" && namedOf(fa.X.Type()) == "os/exec.Cmd" {
+					d := desc(st.Val)
+					if i := strings.Index(d, "alloc:bytes.Buffer<"); i >= 0 {
+						if j := strings.Index(d[i:], ">"); j >= 0 {
+							stdoutBuf = d[i : i+j+1]
+						}
+					}
+				}
+			}
+		}
+	}
 	for _, ex := range os_.Exits {
-		if !strings.HasPrefix(desc(ex.Ret.Results[0]), "call:(*bytes.Buffer).Bytes(alloc:bytes.Buffer<stdout>") {
+		if !strings.HasPrefix(desc(ex.Ret.Results[0]), "call:(*bytes.Buffer).Bytes("+stdoutBuf) {
 			okOut = false
 		}
 		if _, h := hasLabel(ex.Checked, "EQ(call:(*os/exec.Cmd).Run(", "#err,nil)"); !h {
